@@ -31,6 +31,8 @@ CLAIMS = {
             "a range list is installed only after each element passed both ordering tests; trees record/report exactly the lexer's ranges; tokens never end inside a gap"),
     "C14": ("must-pass-through gates on the runtime keyword re-lex and word-token fall-back (Clang CFG) and on the generator's keyword identification (rustc MIR)", "§4 C14",
             "ONLY the keyword clause: a keyword replaces the word token only when it covers the whole word; the precedence/longest-match/ordering clauses are not decided"),
+    "C07": ("bounded-write rule (interval tracking of each index over tests and increments on every path), who-may-call table for libc's allocator, field coverage of delete functions", "§4 C07",
+            "discipline, not safety: every write into a constant-size array has its own bound; only alloc.c touches libc's allocator; delete functions release every owning field"),
     "C08": ("who-may-write tables + licence-class gates over the Clang-resolved program; call-graph closure of the read-only API; compile-fail witnesses", "§4 C08",
             "no non-atomic write to shared nodes, every in-place mutation licensed by fresh/ref_count==1/dec-to-zero"),
 }
